@@ -190,4 +190,14 @@ Proof.
   rewrite (match_position_defect E1). cbn [bind fst snd].
   rewrite (finish_ok PosNaN (HY fuel_nz i0 j0 Hi0 Hj0 TOP)). reflexivity.
 Qed.
+
+(** the recorded defect "2-D grid, no atmosphere blocks, origin column holds a single block" in full
+    generality: the code as it stands raises IndexError *)
+Theorem rectgeo_2d_indexerror fxp : (nx g = 1%nat \/ ny g = 1%nat) -> has g (nz g - 1) 0 0 = false -> (2 <= gatm g)%nat ->
+  rectgeo K keqb fxp false GG av snap (gatm g) nm' = Raise IndexError.
+Proof.
+  intros E Hh A. unfold rectgeo. rewrite required_ok. cbn [negb].
+  rewrite (HY origin_block).
+  rewrite (HY block_spacings_defect D2 i0 j0 Hi0 Hj0 TOP E Hh A). reflexivity.
+Qed.
 End Main.
